@@ -43,6 +43,8 @@ Theorem C15_quantile_is_percentile : forall q v, agg_Quantile XR (Fin q) v = vpe
 Proof. exact agg_Quantile_is_percentile. Qed.
 Theorem C15_quantile_level_between_0_and_1 : forall q, quantile_level_ok XR (Fin q) = true <-> 0 <= q <= 1.
 Proof. exact quantile_level_spec. Qed.
+Theorem C15_quantile_level_nan_is_rejected : quantile_level_ok XR NaN = false.
+Proof. exact quantile_level_nan_rejected. Qed.
 Print Assumptions C15_variance.
 Print Assumptions C15_min.
 
